@@ -76,6 +76,8 @@ OID_CURVES = {
     bytes.fromhex("2b81040022"): ("P-384", 48, 384),
     bytes.fromhex("2b81040023"): ("P-521", 66, 521),
     bytes.fromhex("2b8104000a"): ("secp256k1", 32, 256),
+    # not a JOSE curve: a key the library imports (it hands unknown curve names to the provider) and no ES* algorithm may use
+    bytes.fromhex("2b240303020801010d"): ("brainpoolP512r1", 64, 512),
 }
 OID_ED25519 = bytes.fromhex("2b6570")
 OID_ED448 = bytes.fromhex("2b6571")
@@ -131,7 +133,7 @@ class Key:
         if self.kind in ("rsa", "rsapss"):
             return ["RS256", "RS384", "RS512", "PS256", "PS384", "PS512"] if self.kind == "rsa" else ["PS256", "PS384", "PS512"]
         if self.kind == "ec":
-            return {"P-256": ["ES256"], "secp256k1": ["ES256K"], "P-384": ["ES384"], "P-521": ["ES512"]}[self.crv]
+            return {"P-256": ["ES256"], "secp256k1": ["ES256K"], "P-384": ["ES384"], "P-521": ["ES512"]}.get(self.crv, [])
         return ["EdDSA"]
 
 
